@@ -294,6 +294,8 @@ def small_values(desc, rng, bound):
             kw['psi'] = {'t': [0, 1, 1, 0]} if psi4 else rng.choice([None, 0, 1])
             out.append({'obj': {'module': 'dtw', 'cls': 'DTWSettings', 'kwargs': kw}})
         return out
+    if desc == 'array:val':
+        return [{'a': [{'f': float(k + 1).hex()} for k in range(n)]} for n in range(0, bound + 4)]
     if desc == 'series':
         out = []
         for n in range(0, bound + 1):
